@@ -347,8 +347,9 @@ def h_supernet_cost_sampled(H, n, training, hard):
     H.ensure('supernet-cost:between-cheapest-and-most-expensive-selection-for-any-raw-coefficients', H.and_(H.ge(c, min(B)), H.le(c, max(B))))
 
 
-def h_supernet_summary_idempotent(H, n, training):
-    """summary() re-samples the coefficients: must leave them as they are when they already are the sample of the current alpha"""
+def h_supernet_summary_idempotent(H, n, training, stale=False):
+    """summary() is an observer of the sampled coefficients (the ones get_cost reads): whether they are the sample of the current alpha or - stale=True - what
+    the last forward pass left before alpha was updated by an optimizer step (an arbitrary probability vector)"""
     comb = SuperNetCombiner(n, False, True)
     alpha = H.tensor('alpha', (n,))
     al = H.elements(alpha)
@@ -358,6 +359,10 @@ def h_supernet_summary_idempotent(H, n, training):
     H.set_(comb.alpha, alpha)
     comb.train(training)
     comb.sample_alpha()
+    if stale:
+        th = H.tensor('theta', (n,))
+        H.assume(H.and_(H.ge(th, 0), H.eq(H.sum(H.elements(th)), 1)))
+        comb.theta_alpha = th
     before = H.elements(comb.theta_alpha)
     comb.summary()
     H.ensure('supernet-observer:summary-keeps-the-sampled-coefficients', H.eq(H.elements(comb.theta_alpha), before))
@@ -496,5 +501,5 @@ HARNESSES = [
          thorough=[dict(method=m, training=t, add_bn=ab) for m in ('pit', 'mps', 'supernet') for t in _B for ab in ((True, False) if m == 'pit' else (True,))]),
     dict(name='supernet-summary-idempotent', fn='h_supernet_summary_idempotent', property=['C18'],
          functions=[_P + 'supernet/nn/combiner.py::SuperNetCombiner.summary'],
-         quick=[dict(n=n, training=t) for n in (2, 3) for t in _B], thorough=[dict(n=n, training=t) for n in (1, 2, 3, 4) for t in _B]),
+         quick=[dict(n=n, training=t, stale=st) for n in (2, 3) for t in _B for st in _B], thorough=[dict(n=n, training=t, stale=st) for n in (1, 2, 3, 4) for t in _B for st in _B]),
 ]
